@@ -133,6 +133,7 @@ def run(ctx):
         kind = rng.choice(["dna", "rna", "protein"])
         recs = gen.family(rng, kind, rng.randint(2, 9), rng.choice([10, 55, 60, 118, 130, 300]), sub=0.1, indel=0.05)
         t = rng.choice([3, 4, 5]) if kind == "protein" else rng.choice([0, 1, 2, 5])
+        t = gen.fit_type(t, kind, recs)
         for f in ("fasta", "msf", "clu"):
             c = Case(recs, t, fmt=f, threads=rng.choice([1, 4]))
             c.protein = kind == "protein"
